@@ -7,6 +7,8 @@
 import KodaModel.PySchemaPred
 import KodaModel.Generated.SchemaPredSrc
 import KodaModel.Generated.PredSrc
+import KodaModel.Properties.C10
+import KodaModel.Properties.C10WF
 
 namespace Koda
 
@@ -28,6 +30,18 @@ theorem src_pred_schema (pr : Printer) (p : PredK) :
     | none => rfl
     | some s => simp only []; cases enumValues pr s <;> rfl
   | _ => simp [runGenSchemaPred, Src.genSchemaPredicate, runArms, GCls.matches, GRet.eval, predSchema, PredK.intParam]
+
+/-- **C10 at the source, predicates**: the translated `generate_schema_predicate` returns an object or raises
+    `TypeError` — nothing else — for every predicate (CPython's printers being total) … -/
+theorem C10_src_pred_outcome (pr : Printer) (ht : pr.Total) (p : PredK) :
+    OkOrTE (runGenSchemaPred pr Src.genSchemaPredicate p) := by
+  rw [src_pred_schema]; exact predSchema_outcome pr ht p
+
+/-- … and what it returns carries, under every keyword, a value of the shape the Draft 2020-12 metaschema demands
+    (for predicates with non-negative length / count parameters and finite numeric bounds: `wfSafe`) -/
+theorem C10_src_pred_wf (pr : Printer) (p : PredK) (o : JObj) (hp : p.wfSafe = true)
+    (h : runGenSchemaPred pr Src.genSchemaPredicate p = .ok o) : wfO o = true := by
+  rw [src_pred_schema] at h; exact predSchema_wf pr p o hp h
 
 /-- the classes with an arm are predicate classes the library defines, each at most once -/
 theorem src_pred_schema_arms_known :
